@@ -277,6 +277,31 @@ Definition higher_q (n q : string) : bool := FrequencyGroupIdentifier_is_higher_
 Definition c1 (q : string) (e : edge) : bool :=
   existsb (fun n => edge_contains e n && higher_q n q && on_moving_side n e) (get_neighbors q).
 
+Section ParkingCore.
+Variable N : list string.
+Variable P : string -> bool.
+Variable M : string -> edge -> bool.
+
+Lemma parking_core_gen es :
+  s_nodupb (flat_map s_qubits es) = true ->
+  existsb (fun n => qmem n (involved_qubits es) && (P n && M n (first_edge n es))) N
+  = existsb (fun e => existsb (fun n => edge_contains e n && P n && M n e) N) es.
+Proof.
+  intros Hnd. apply bool_eq_iff. rewrite !existsb_exists. split.
+  - intros [n [Hn H]]. rewrite !andb_true_iff in H. destruct H as [Hq [Hh Hm]].
+    destruct (first_edge_in n es Hq) as [F1 F2].
+    exists (first_edge n es). split; [exact F1|].
+    apply existsb_exists. exists n. split; [exact Hn|]. now rewrite F2, Hh, Hm.
+  - intros [e [He H]]. apply existsb_exists in H. destruct H as [n [Hn H]].
+    rewrite !andb_true_iff in H. destruct H as [[Hc Hh] Hm].
+    exists n. split; [exact Hn|].
+    assert (Hq : qmem n (involved_qubits es) = true) by (eapply qmem_involved; eassumption).
+    destruct (first_edge_in n es Hq) as [F1 F2].
+    assert (E : first_edge n es = e) by (eapply disjoint_unique; eassumption).
+    now rewrite Hq, E, Hh, Hm.
+Qed.
+End ParkingCore.
+
 Lemma parking_core q es :
   s_nodupb (flat_map s_qubits es) = true ->
   existsb (fun t => match t with (n, fn, e) => FrequencyGroupIdentifier_is_higher_than fn (freq q) && on_moving_side n e end)
@@ -284,19 +309,7 @@ Lemma parking_core q es :
   = existsb (c1 q) es.
 Proof.
   intros Hnd. unfold involved_triples. rewrite existsb_triples, existsb_filter.
-  fold (first_edge) in *. apply bool_eq_iff. rewrite !existsb_exists. split.
-  - intros [n [Hn H]]. rewrite !andb_true_iff in H. destruct H as [Hq [Hh Hm]].
-    destruct (first_edge_in n es Hq) as [F1 F2].
-    exists (first_edge n es). split; [exact F1|].
-    unfold c1. apply existsb_exists. exists n. split; [exact Hn|].
-    unfold higher_q. unfold first_edge in *. now rewrite F2, Hh, Hm.
-  - intros [e [He H]]. unfold c1 in H. apply existsb_exists in H. destruct H as [n [Hn H]].
-    rewrite !andb_true_iff in H. destruct H as [[Hc Hh] Hm].
-    exists n. split; [exact Hn|].
-    assert (Hq : qmem n (involved_qubits es) = true) by (eapply qmem_involved; eassumption).
-    destruct (first_edge_in n es Hq) as [F1 F2].
-    assert (E : first_edge n es = e) by (eapply disjoint_unique; eassumption).
-    unfold first_edge in E. rewrite Hq, E. unfold higher_q in Hh. now rewrite Hh, Hm.
+  exact (parking_core_gen (get_neighbors q) (fun n => higher_q n q) on_moving_side es Hnd).
 Qed.
 
 (* the rule's contribution of one gate *)
